@@ -135,8 +135,41 @@ def _is_fresh_expr(repo, fi, v, idx, fresh):
             kind, m, obj = repo.resolve(fi.mod, f.id)
             if kind == 'class':
                 return True
+            if kind == 'func' and m is not None and not m.external:
+                return returns_fresh(repo, obj)
+        elif isinstance(f, ast.Attribute) and isinstance(f.value, ast.Name) and f.value.id in ('self', 'cls') and fi.cls is not None:
+            meth = repo.find_method(fi.cls, f.attr)
+            if meth is not None and not meth.mod.external:
+                return returns_fresh(repo, meth)
         return False
     return False
+
+
+def returns_fresh(repo, fi, _depth=0):
+    """Every ``return`` of an analysed function hands out an object allocated in that activation (a literal, a
+    container constructor call, a concatenation, or a local that only ever holds such objects) -- the caller's local
+    that receives it is as fresh as one built in place.  Generators and functions without a return are not."""
+    cache = getattr(repo, '_returns_fresh', None)
+    if cache is None:
+        cache = repo._returns_fresh = {}
+    if fi.key in cache:
+        return cache[fi.key]
+    cache[fi.key] = False        # recursion guard
+    ok = _depth < 3
+    rets = [s for s in stmts_of(fi.node) if isinstance(s, ast.Return)]
+    if not rets or any(isinstance(n, (ast.Yield, ast.YieldFrom)) for n in walk_body(fi.node)):
+        ok = False
+    if ok:
+        fresh = fresh_locals(repo, fi)
+        for r in rets:
+            v = r.value
+            if isinstance(v, ast.Name):
+                if v.id not in fresh:
+                    ok = False
+            elif v is None or isinstance(v, ast.Constant) or not _is_fresh_expr(repo, fi, v, None, fresh):
+                ok = False
+    cache[fi.key] = ok
+    return ok
 
 
 # ---------------------------------------------------------------------------------------------- value flow
